@@ -14,7 +14,8 @@ RULE = ("(soundness) every node labelled unescape.xml / function.chr / function.
         "chr|chrw|chrb x code points 0..300, the surrogate range (must not be reported), 65535, 65536, 99999 x leading zeros x case, "
         "sequences of chr calls with unencodable ones in between, unescape('...') with every byte escaped / unescaped / malformed "
         "escapes, UTF-16 runs of 7/8/more over the whole allowed Latin-1 set: one node with the documented type, label, exact span "
-        "and value. distinct_nontrivial = distinct inputs with a judged node / case.")
+        "and value. Added after the blind seed rounds: upper-case X reference markers, UTF-16 runs joined by NUL characters, a 'big' shard (3 kB..140 kB), expressions partially overlapped by a path (/usr/share/chr(65)), an earlier lone quote character, pairs of expressions in one text. "
+        "distinct_nontrivial = distinct inputs with a judged node / case.")
 ASSUMPTIONS = ["utf-16 values are compared as the UTF-8 encoding of the Latin-1 characters of the pairs"]
 EXPECTED_WALL = {"quick": 50, "thorough": 400}
 REQUIRED = {"stacks_judged": 187, "c14_unescape.xml": 62, "c14_function.chr": 62, "c14_function.unescape": 62, "c14_codec.uft-16": 37,
